@@ -54,6 +54,7 @@ func runRequests(c *Case) ([]Obs, any) {
 				if b == nil {
 					return Obs{OK, 0}
 				}
+				st.BlockProcessed() // processBlocks: the popped block has been processed
 				// the popped block is identified by the new last saved hash
 				lh := st.LastHash()
 				_ = lh
